@@ -59,8 +59,9 @@ def exponent_script(r, root, base, mulop, sqop):
     return '\n'.join(lines), top, len(lines)
 
 
-def run(tier, seed):
-    ck = Check('C06', tier, seed, level='proof')
+def run(tier, seed, ck=None):
+    own = ck is None
+    ck = ck or Check('C06', tier, seed, level='proof')
     jobs = []
     for op in (0, 1, 2, 5, 6):
         for al in (0, 1, 2):
@@ -69,15 +70,15 @@ def run(tier, seed):
         jobs.append({'id': 'op%d' % op, 'harness': 'vh_sop1', 'args': [op], 'summaries': SUMM})
     jobs += [{'id': 'setu', 'harness': 'vh_setuint64', 'summaries': SUMM}, {'id': 'new', 'harness': 'vh_newscalar', 'summaries': SUMM}]
     runs = ck.absorb(core.symx_parallel(HARNESS, jobs))
-    ck.extra['_runs'] = runs
+    ck.extra.setdefault('_runs', []).extend(runs)
     R_ = {r.id: r for r in runs}
-    ck.trusted = ['go/ssa + symx translation', 'SMT solvers', 'Fermat: x^(n-2) is the inverse of x != 0 modulo the prime n (and 0^(n-2) = 0)',
+    ck.trusted += ['go/ssa + symx translation', 'SMT solvers', 'Fermat: x^(n-2) is the inverse of x != 0 modulo the prime n (and 0^(n-2) = 0)',
                   'x -> x*R mod n is a ring isomorphism, so the Montgomery-domain contracts are the value-level ring operations',
                   'math/big.Int.Exp is modular exponentiation; SetBytes/Bytes are big-endian conversions']
-    ck.assumptions = ['operands canonical (< n), the representation invariant (C10)']
+    ck.assumptions += ['operands canonical (< n), the representation invariant (C10)']
     ck.bounds = {'operands': 'all pairs of canonical limb vectors; SetUInt64: all 2^64 words', 'aliasing': 'distinct / argument is the receiver / nil argument',
                  'Pow': 'every length 0..32 of math/big\'s minimal byte string'}
-    ck.outside = ['internals of math/big (modelled as 256-bit values with modexp uninterpreted, result < modulus)']
+    ck.outside += ['internals of math/big (modelled as 256-bit values with modexp uninterpreted, result < modulus)']
     kernels.prove(ck, 'scalar', ['Mul', 'Square', 'Add', 'Sub', 'FromMontgomery', 'ToMontgomery', 'Selectznz', 'Nonzero', 'SetOne'], tier)
 
     names = {0: ('Add', 'sadd'), 1: ('Subtract', 'ssub'), 2: ('Multiply', 'smul')}
@@ -193,7 +194,7 @@ def run(tier, seed):
             list(ex.map(one_path, r.paths))
     if any(not o['ok'] for o in ck.obls) and not ck.violations:
         battery(ck)
-    return ck.finish()
+    return ck.finish() if own else None
 
 
 def battery(ck):
